@@ -323,7 +323,7 @@ package ristretto
 //@   ensures [C03,C13] #admitted result1 ==> gcHas(p.evict.keyCosts, key) && p.evict.keyCosts[key] == cost && !old(gcHas(p.evict.keyCosts, key))
 //@   ensures [C13] #notadmitted !result1 ==> gcHas(p.evict.keyCosts, key) == old(gcHas(p.evict.keyCosts, key))
 //@   ensures [C03] #wf wfLFU(p.evict)
-//@   ensures [C09] #fastpath !old(gcHas(p.evict.keyCosts, key)) && 0 <= cost && cost < 1<<62 && 0 <= old(p.evict.used) && old(p.evict.used) < 1<<62 && cost <= old(gcMaxCostLast) && old(gcMaxCostLast)-(old(p.evict.used)+cost) >= 0 ==> result1 && len(result0) == 0 && forall k uint64 :: k != key ==> gcHas(p.evict.keyCosts, k) == old(gcHas(p.evict.keyCosts, k)) && p.evict.keyCosts[k] == old(p.evict.keyCosts[k])
+//@   ensures [C09,C06] #fastpath !old(gcHas(p.evict.keyCosts, key)) && 0 <= cost && cost < 1<<62 && 0 <= old(p.evict.used) && old(p.evict.used) < 1<<62 && cost <= old(gcMaxCostLast) && old(gcMaxCostLast)-(old(p.evict.used)+cost) >= 0 ==> result1 && len(result0) == 0 && forall k uint64 :: k != key ==> gcHas(p.evict.keyCosts, k) == old(gcHas(p.evict.keyCosts, k)) && p.evict.keyCosts[k] == old(p.evict.keyCosts[k])
 //@   ensures [C09,C13] #victims forall i int, k uint64 :: 0 <= i && i < len(result0) && k == result0[i].Key ==> result0[i] != nil && !gcHas(p.evict.keyCosts, k) && old(gcHas(p.evict.keyCosts, k)) && result0[i].Cost == old(p.evict.keyCosts[k]) && result0[i].Conflict == 0
 //@   ensures [C13] #evicted-are-victims forall k uint64 :: old(gcHas(p.evict.keyCosts, k)) && !gcHas(p.evict.keyCosts, k) ==> exists j int :: 0 <= j && j < len(result0) && result0[j].Key == k
 //@   ensures [C04,C09] #victims-distinct forall i, j int :: 0 <= i && i < j && j < len(result0) ==> result0[i].Key != result0[j].Key
@@ -419,7 +419,7 @@ package ristretto
 //@   requires m != nil && bucketDurationSecs > 0
 //@   modifies m.data[*], m.em.buckets[*][*]
 //@   ensures [C01,C13] #others forall k uint64 :: k != key ==> gcHas(m.data, k) == old(gcHas(m.data, k)) && sameEntry(m.data[k], old(m.data[k]))
-//@   ensures [C14] #only-expired result2 ==> old(gcHas(m.data, key)) && conflictOK(old(m.data[key]), conflict) && !old(m.data[key].expiration).IsZero() && !old(m.data[key].expiration).After(now)
+//@   ensures [C14,C07] #only-expired result2 ==> old(gcHas(m.data, key)) && conflictOK(old(m.data[key]), conflict) && !old(m.data[key].expiration).IsZero() && !old(m.data[key].expiration).After(now)
 //@   ensures [C14,C02] #removed result2 ==> !gcHas(m.data, key) && gcSameRef(result0, old(m.data[key].value)) && result1 == old(m.data[key].expiration)
 //@   ensures [C14] #kept !result2 ==> gcHas(m.data, key) == old(gcHas(m.data, key)) && sameEntry(m.data[key], old(m.data[key]))
 //@   ensures [C14] #exact old(gcHas(m.data, key)) && conflictOK(old(m.data[key]), conflict) && !old(m.data[key].expiration).IsZero() && !old(m.data[key].expiration).After(now) ==> result2
@@ -482,7 +482,7 @@ package ristretto
 //@   requires wfSharded(sm) && bucketDurationSecs > 0
 //@   modifies shardOf(sm, key).data[*], sm.expiryMap.buckets[*][*]
 //@   ensures [C13] #others forall k uint64 :: k != key ==> smHas(sm, k) == old(smHas(sm, k)) && sameEntry(smEntry(sm, k), old(smEntry(sm, k)))
-//@   ensures [C14] #only-expired result2 ==> old(smHas(sm, key)) && conflictOK(old(smEntry(sm, key)), conflict) && !old(smEntry(sm, key).expiration).IsZero() && !old(smEntry(sm, key).expiration).After(now)
+//@   ensures [C14,C07] #only-expired result2 ==> old(smHas(sm, key)) && conflictOK(old(smEntry(sm, key)), conflict) && !old(smEntry(sm, key).expiration).IsZero() && !old(smEntry(sm, key).expiration).After(now)
 //@   ensures [C14,C02] #removed result2 ==> !smHas(sm, key) && gcSameRef(result0, old(smEntry(sm, key).value)) && result1 == old(smEntry(sm, key).expiration)
 //@   ensures [C14] #kept !result2 ==> smHas(sm, key) == old(smHas(sm, key)) && sameEntry(smEntry(sm, key), old(smEntry(sm, key)))
 
@@ -627,7 +627,7 @@ package ristretto
 //@   loop 3 invariant #shrinkM forall k uint64 :: smHas(store.(*shardedMap[V]), k) ==> old(smHas(store.(*shardedMap[V]), k))
 //@   loop 3 invariant #shrinkP forall k uint64 :: gcHas(policy.evict.keyCosts, k) ==> old(gcHas(policy.evict.keyCosts, k))
 //@   loop 3 invariant #agree forall k uint64 :: smHas(store.(*shardedMap[V]), k) && old(gcHas(policy.evict.keyCosts, k)) ==> gcHas(policy.evict.keyCosts, k)
-//@   at call onEvict#1 assert [C14] #reported ok && !expr.IsZero() && !expr.After(now) && !smHas(store.(*shardedMap[V]), key)
+//@   at call onEvict#1 assert [C14,C07] #reported ok && !expr.IsZero() && !expr.After(gcNow()) && !smHas(store.(*shardedMap[V]), key)
 //@   ensures [C14] #frontier-advanced m != nil ==> m.lastCleanedBucketNum == cleanupBucket(gcNow())
 //@   ensures [C13] #shrinkM m != nil ==> forall k uint64 :: smHas(store.(*shardedMap[V]), k) ==> old(smHas(store.(*shardedMap[V]), k))
 //@   ensures [C13] #agree m != nil ==> forall k uint64 :: smHas(store.(*shardedMap[V]), k) && old(gcHas(policy.evict.keyCosts, k)) ==> gcHas(policy.evict.keyCosts, k)
